@@ -80,7 +80,9 @@ def genC03Cases (tier : String) (seed : Nat) : Array Case := Id.run do
   let mut out : Array Case := #[]
   let mut rng : Rng := ⟨UInt64.ofNat (seed * 32452843 + 5)⟩
   for i in [0:n] do
-    let cfg : NestCfg := { depth := if i % 3 = 0 then 1 else 0, pairs := true }
+    -- top-level pair combinations; every third statement also nests statements, which may
+    -- themselves contain a pair combination
+    let cfg : NestCfg := { depth := if i % 3 = 0 then 1 else 0, pairs := true, nestedPairs := i % 3 = 0 }
     let (s, rng') := genNestedSup cfg rng
     rng := rng'
     let c := parseCase s!"c03-r{i}" (if supported s then "pairs-supported" else "pairs-unsupported") s
